@@ -21,7 +21,7 @@ ASSUMPTIONS = [
     "snapshot built from public accessors only (get_records, bundles, namespaces, get_default_namespace)",
     "flattened() of a bundle-free document is documented to return the document itself and is not treated as a derivation",
 ]
-OPS = ["copy", "add_record", "ctor", "update", "add_bundle", "unified", "unified_twice", "flattened", "json", "xml"]
+OPS = ["copy", "add_record", "ctor", "update", "add_bundle", "unified", "unified_twice", "flattened", "json", "xml", "graph", "graph_twice"]
 MUTS = ["add_attr", "add_value", "set_absent_formal", "add_record", "ns_fresh", "ns_clash", "set_default", "add_bundle", "add_bundle_member"]
 REQUIRED_CLASSES = {"all": ["cell:%s:%s:%s" % (o, m, s) for o in OPS for m in MUTS for s in ("result", "source")
                             if not (o == "copy" and m not in ("add_attr", "add_value", "set_absent_formal"))]}
@@ -58,7 +58,8 @@ def strategy(tier):
 
 def matrix(tier):
     for r, o, m, s in itertools.product(SEED_DOCS, OPS, MUTS, ("result", "source")):
-        yield {"recipe": r, "op": o, "mut": m, "side": s, "sel": 0}
+        for sel in (range(6) if o == "copy" else (0,)):     # copy: one cell per record of the seed document
+            yield {"recipe": r, "op": o, "mut": m, "side": s, "sel": sel}
 
 
 def _it(b, **kw):
@@ -129,6 +130,17 @@ def derive(d, op, sel, ctx):
         if why_not_expressible(d):
             return None
         return d, ProvDocument.deserialize(content=d.serialize(format="xml"), format="xml")
+    if op in ("graph", "graph_twice"):
+        # graph_to_prov builds its document with add_record: the result shares nothing with the document the graph
+        # was made from, nor with another document converted from the same graph
+        from prov.graph import prov_to_graph, graph_to_prov
+        try:
+            g = prov_to_graph(d)
+        except ProvException:
+            return None
+        if op == "graph":
+            return d, graph_to_prov(g)
+        return graph_to_prov(g), graph_to_prov(g)
     raise ValueError(op)
 
 
